@@ -141,6 +141,8 @@ def obs_pass(name, fam, obs_path, records):
 def cgt_family(name, seed=1):
     if name in _family_cache:
         return _family_cache[name]
+    if name in MATCHER_FAMILIES:
+        return matcher_family(name)
     fam = FAMILIES[name]
     cfg = write_cfg('MC_Cgt_' + name, cgt_cfg(**fam['cfg']))
     if fam.get('simulate'):
@@ -180,6 +182,52 @@ def cgt_family(name, seed=1):
             findings.append({'prop': prop, 'kind': 'obs_' + what, 'case': case,
                              'detail': f'TLC observation pass: {verdicts[0]}',
                              'input': json.dumps(obs_by_case[case][0]), 'data': {'verdicts': verdicts}})
+    _family_cache[name] = r
+    return r
+
+
+# --------------------------------------------------------------------------------------------
+# MC_Matcher families: the implementation-shaped machine (Matcher.tla: acquisition ledger with per-lot offsets, FIFO
+# cost pre-pass, stateless same-day reservation, look-ahead split adjustment) is model-checked to REFINE Cgt.tla on
+# every generated ledger, and its own outcome -- with the apportionment now determined -- is replayed into the code.
+
+def matcher_cfg(dayset=3, buy=(0, 1, 2), sell=(0, 1, 2), splits=(1,), events=(), maxcells=4):
+    return f'''SPECIFICATION Spec
+CONSTANTS
+  N <- MC_N
+  DayNo <- MC_DayNo
+  DaySet = {dayset}
+  BuyQs = {set_(buy)}
+  SellQs = {set_(sell)}
+  SplitKinds = {set_(splits)}
+  EventKinds = {set_(events)}
+  MaxCells = {maxcells}
+INVARIANTS Refines RefusesUnabsorbable Bookkeeping EmitReplay
+CHECK_DEADLOCK FALSE
+'''
+
+
+MATCHER_FAMILIES = {
+    'matcher_q': dict(dayset=3, splits=(1, 2), maxcells=4),
+    'matcher_events_q': dict(dayset=3, buy=(0, 1, 2), sell=(0, 1), splits=(1,), events=(1, 2, 5), maxcells=4),
+    'matcher_t': dict(dayset=3, splits=(1, 2), maxcells=5),
+    'matcher_events_t': dict(dayset=3, splits=(1,), events=(1, 2, 3, 5, 6), maxcells=4),
+}
+
+
+def matcher_family(name):
+    if name in _family_cache:
+        return _family_cache[name]
+    cfg = write_cfg('MC_' + name[0].upper() + name[1:], matcher_cfg(**MATCHER_FAMILIES[name]))
+    m = tlc('MC_Matcher', cfg, workers=8, timeout=3000)
+    log(f'[tlc] MC_Matcher/{name}: refinement Matcher => Cgt held on {m["states"]} distinct states, {m["transitions"]} '
+        f'transitions, depth {m["depth"]} ({"cached" if m["cached"] else str(m["wall_s"]) + "s"})')
+    wd = workdir('cgt_' + name)
+    out = os.path.join(wd, 'findings.ndjson')
+    s = harness('replay_cgt', ['--in', m['out'], '--out', out, '--bases', '1', '--variants', 'none'])
+    r = {'name': name, 'tlc': m, 'summary': s, 'findings': read_ndjson(out), 'obs': None}
+    log(f'[replay] MC_Matcher/{name}: {s["records"]} behaviours, {s["counters"].get("executions", 0)} executions, '
+        f'{s["findings"]} deviations')
     _family_cache[name] = r
     return r
 
